@@ -63,6 +63,18 @@ def lossyVal : Val → Bool
   | .hash h => h.any fun (f, v) => !isAscii f || (match v with | .str s => !isAscii s | .int _ => true | _ => false)
   | _ => false
 
+def nonFinite : Flt → Bool
+  | .fin _ => false
+  | _ => true
+
+/-- encoding/json refuses ±Inf (and NaN): a dataset holding one cannot be written as a preamble or snapshot -/
+def stateNonFinite (s : State) : Bool :=
+  s.dbs.any fun (_, d) => d.store.any fun (_, e) => match e.val with
+    | .flt f => nonFinite f
+    | .hash h => h.any fun (_, v) => match v with | .flt f => nonFinite f | _ => false
+    | .zset _ ms => ms.any fun (_, sc) => nonFinite sc
+    | _ => false
+
 def stateLossy (now : Int) (s : State) : Bool :=
   s.dbs.any fun (_, d) => d.store.any fun (k, e) => !e.expired now && (lossyVal e.val || !isAscii k)
 
@@ -167,17 +179,19 @@ def verdictAof (id point : String) (now2 : Int) (inj stuck : Bool) (nrw : Nat) :
   -- C02 judges every restart of a stopped server (command boundaries) and every crash of a history without
   -- rewrite; C09 judges everything from the first rewrite on
   let own := if nrw == 0 then "C02" else if point == "boundary" || point == "redurable" then "C02+C09" else "C09"
-  pure s!"{id} {modelV} ## dur={dur} dcls={cls} own={own} pt={point} jr={jr} ncand={cands.length} iso={placementVerdict point kind now2 cands r} cls={cls}"
+  pure s!"{id} {modelV} ## dur={dur} dcls={cls} own={own} pt={point} jr={jr} ncand={cands.length} iso={placementVerdict point kind now2 cands r} cls={cls} nf={if cands.any stateNonFinite then 1 else 0}"
 
 /-- classes of snapshot images on which the unchanged code is known to lose or change data -/
 def classifySnap (point : String) (now2 : Int) (manifestOk : Bool) (dangling : Bool) (copySrc : Option State) (cands : List State) (stuck : Bool) : String :=
   let inWindow := ["snapshot.take.manifest.created", "snapshot.take.manifest.written", "snapshot.take.manifest.closed",
                    "snapshot.take.dir.created", "snapshot.take.state.created", "snapshot.take.state.written~torn"].any fun p => point.startsWith p
   if point == "hang" then (if stuck then "rewrite-after-failed-write-hangs" else "-")
+  else if (match copySrc with | some s => stateLossy now2 s | none => false) || cands.any (stateLossy now2) then "snapshot-retypes-values"
+  -- the two classes below were repaired upstream (state file first, manifest by rename): they are listed as fixed,
+  -- excuse nothing, and come last so that they never hide a listed class
   else if inWindow then "snapshot-crash-window-loses-previous"
   else if !manifestOk && point.startsWith "snapshot.take.manifest.written~torn" then "snapshot-crash-window-loses-previous"
   else if dangling then "failed-snapshot-leaves-dangling-manifest"
-  else if (match copySrc with | some s => stateLossy now2 s | none => false) || cands.any (stateLossy now2) then "snapshot-retypes-values"
   else "-"
 
 def pSnapDirs : P (List SnapDir) := do
@@ -240,7 +254,7 @@ def verdictSnap (id point : String) (now2 : Int) (stuck : Bool) : P String := do
   let cls := if liveBad then "-" else classifySnap point now2 (mdec == 1 || mf.isNone) dangling (copy.map (·.2)) cands stuck
   -- C03 judges restarts of a stopped server; C10 judges crash images and what a (failed) attempt leaves behind
   let own := if point == "start" then "C03" else if point == "boundary" then "C03+C10" else "C10"
-  pure s!"{id} {modelV} ## dur={dur} dcls={cls} own={own} pt={point} jr={jr} ncand={cands.length} iso={placementVerdict point kind now2 cands r} cls={cls}"
+  pure s!"{id} {modelV} ## dur={dur} dcls={cls} own={own} pt={point} jr={jr} ncand={cands.length} iso={placementVerdict point kind now2 cands r} cls={cls} nf={if cands.any stateNonFinite then 1 else 0}"
 
 /-- S lines: the automatic snapshot trigger. `S id threshold changes fired` -/
 def verdictS (line : String) : String :=
@@ -273,12 +287,26 @@ def verdictX (line : String) : String :=
     expect "J"; let inj ← tok
     expect "W"; let nrw ← pNat
     expect "U"; let stuck ← tok
+    expect "O"; let opName ← tok; let opKind ← tok; let opText ← pBytes; let liveNonFinite ← tok
+    -- an engine step (snapshot / rewrite) that was not obstructed must not fail: "nothing new to snapshot" is the
+    -- only refusal the property allows
+    -- (a rewrite that returns an error changes nothing on disk before it fails: the images stay judged as they are)
+    let opFailed := opName == "@snapshot" && opKind != "ok" && opKind != "hang" &&
+                    opText != b "nothing new to snapshot"
     if point == "hang" then
       let cls := if stuck == "1" then "rewrite-after-failed-write-hangs" else "-"
       let own := if mode == "aof" then "C09" else "C03"
       pure s!"{id} OK ## dur=rej:server-stops-answering dcls={cls} own={own} pt=hang jr=na ncand=0"
-    else if mode == "aof" then verdictAof id point now2 (inj == "1") (stuck == "1") nrw
-    else verdictSnap id point now2 (stuck == "1")
+    else do
+      let v ← if mode == "aof" then verdictAof id point now2 (inj == "1") (stuck == "1") nrw
+              else verdictSnap id point now2 (stuck == "1")
+      if opFailed && point == "boundary" then
+        -- overrides the verdict of the image: the step itself failed
+        let parts := v.splitOn " ## "
+        let head := parts.headD ""
+        let cls := if liveNonFinite == "1" then "nonfinite-float-blocks-json-persistence" else "-"
+        pure s!"{head} ## dur=rej:{opName.drop 1}-failed dcls={cls} own={if mode == "aof" then "C09" else "C03+C10"} pt=boundary jr=na ncand=0 iso=na cls={cls}"
+      else pure v
   match p.run toks with
   | .ok (v, _) => v
   | .error e => s!"{toks.getD 1 "?"} SKIP parse:{e} ## dur=na"
